@@ -38,7 +38,7 @@ COMPONENTS = {
 PROBES = ["earlier_start_object_installed_again", "sequencer_subclass_with_own_constructor", "start_constructed_ahead_of_hand_over", "start_object_changed_in_place", "user_start_derived_from_library_class", "update_at_counter_9", "update_at_counter_0", "back_to_back_updates", "update_with_packets_in_flight",
           "three_wraparounds_between_updates", "reconnect", "sequence_sent_as_short", "two_pings_outstanding",
           "request_from_another_thread"]
-FAULT_KINDS = ["latency_jitter", "start_update_mid_burst", "reconnect", "start_unreadable_during_request", "update_during_request"]
+FAULT_KINDS = ["start_in_force_broken_at_update", "latency_jitter", "start_update_mid_burst", "reconnect", "start_unreadable_during_request", "update_during_request"]
 SHRINK_KEYS = ["script", "local"]
 
 
@@ -79,6 +79,10 @@ def generate(streams, tier):
         if rng.random() < 0.04:
             local.append(["install_prepared"])
             continue
+        if rng.random() < 0.03:
+            # the start in force has become unreadable for good; the application repairs the session with a new start
+            local.append(["replace_broken", rng.choice([0, 5, 251, 1756, rng.randrange(0, 70000)])])
+            continue
         if rng.random() < 0.04:
             # a start object that was in force earlier is handed over again (the very same object)
             local.append(["reinstall_earlier", rng.randrange(0, 8)])
@@ -97,7 +101,7 @@ def generate(streams, tier):
         else:
             local.append(["next_during_outage"])
     return {"script": script, "local": local, "net_seed": rng.randrange(1 << 30), "draw_seed": rng.randrange(1 << 30),
-            "jitter": rng.choice([0, 5, 50, 400]), "start_base": rng.randrange(5), "sequencer_class": rng.randrange(5)}
+            "jitter": rng.choice([0, 5, 50, 400]), "start_base": rng.randrange(35), "sequencer_class": rng.randrange(5)}
 
 
 class _Session:
@@ -324,11 +328,18 @@ def run_local(plan, s, res, tr):
                 super().__init__(7, 1, 2)
             self._v = v
 
+        if plan.get("start_base", 0) % 7 == 3:
+            def __len__(self):          # an application start that happens to be a sized, empty thing: falsy
+                return 0
+        elif plan.get("start_base", 0) % 7 == 5:
+            def __bool__(self):
+                return False
+
         @property
         def value(self):
-            if state["outage"]:
+            if state["outage"] or self is state.get("broken"):
                 # the start cannot be read right now (its backing packet has not arrived, its storage failed, ...)
-                kind = state["outage"]
+                kind = state["outage"] or "fault"
                 if kind == "attribute":
                     raise AttributeError("'NoneType' object has no attribute 'sequence_start'")
                 if kind == "key":
@@ -401,6 +412,21 @@ def run_local(plan, s, res, tr):
             prepared.append(ProbeStart(op[1]))       # constructing a start changes nothing that is in force
             res.count("probe.start_constructed_ahead_of_hand_over")
             tr.ev("local", "prepare", op[1])
+        elif op[0] == "replace_broken":
+            state["broken"] = installed
+            fresh = ProbeStart(op[1])
+            try:
+                seq.set_sequence_start(fresh)
+            except BaseException as e:  # noqa
+                s.fail("update-lost", "local", f"local history step {i}: handing over a readable start ({op[1]}) raised "
+                       f"{type(e).__name__}: {e} because the start it replaces cannot be read any more")
+                return
+            finally:
+                state["broken"] = None
+            installed = fresh
+            start = op[1]
+            res.count("fault.start_in_force_broken_at_update")
+            tr.ev("local", "replace_broken", op[1])
         elif op[0] == "reinstall_earlier":
             if history_of_starts:
                 installed = history_of_starts[op[1] % len(history_of_starts)]
